@@ -820,6 +820,28 @@ def d3_table(ctx):
             return frames_inv(ctx, site)
         return False, 'index into %s is not covered by a structural invariant' % a[:60]
 
+    def constants_bounds(ctx, site):
+        # constants[operand] on a slice view of the constant pool (a bounds-check assertion instead of an Index call)
+        fn = site['f']
+        c_ = sym(fn, site['term']['cond'])
+        if not (c_[0] == 'binop' and c_[1] == 'Lt'):
+            return False, 'not covered'
+        idx, ln = strip(c_[2]), str(c_[3])
+        from_operand = idx[0] == 'call' and idx[1] in ('vm::VM::read_u16', 'vm::VM::read_u8')
+        pool = 'constants' in ln or any((fn.locals[l_].get('name') == 'constants') for l_ in psc.mlocals(c_[3]) | _locals_in(c_[3]))
+        if from_operand and pool:
+            return r02_6(ctx, site)
+        return False, 'not covered'
+
+    def _locals_in(v, acc=None):
+        acc = set() if acc is None else acc
+        if isinstance(v, tuple):
+            if v and v[0] in ('param', 'mlocal') and isinstance(v[1], int):
+                acc.add(v[1])
+            for x in v:
+                _locals_in(x, acc)
+        return acc
+
     def cmp_callers(ctx, site):
         bad = []
         for f in F.all_fns:
@@ -914,6 +936,7 @@ def d3_table(ctx):
         ('object::Object::int', 'assert_failed', 'R06.3', int_encoder),
         ('builtins::call_print', 'unwrap', 'local', print_guard),
         ('vm::VM::run', 'index', 'R02.6/R17.1', constants_index),
+        ('vm::VM::run', 'Assert(BoundsCheck)', 'R02.6/R17.1', constants_bounds),
         ('<object::Object as core::cmp::PartialOrd>::partial_cmp', 'assert_failed', 'R06.4', cmp_callers),
         ("<ast::Operator as core::convert::From<lexer::Token<'_>>>::from", 'panic_fmt', 'R07.6', operator_domain),
         ('compiler::Compiler::compile_operator', 'panic_fmt', 'R07.6+CSA', compile_operator_domain),
